@@ -168,6 +168,13 @@ def normalize(node):
             out[k] = normalize(v)
         else:
             out[k] = v
+    if out.get("k") == "variant" and "fields" in out and "subs" not in out and not out.get("rest") \
+            and all(str(x.get("name", "")).isdigit() for x in out["fields"]):
+        # `Some { 0: c }` (for-loop / ? desugaring) == `Some(c)`
+        fs = sorted(out["fields"], key=lambda x: int(x["name"]))
+        if [int(x["name"]) for x in fs] == list(range(len(fs))):
+            out["subs"] = [x["pat"] for x in fs]
+            del out["fields"]
     if out.get("k") == "call":
         c = out.get("callee") or ""
         if c == "alloc::__export::must_use" and len(out["args"]) == 1:
